@@ -20,8 +20,10 @@ Observed per case (rounds of servicing, never the clock):
   O2 marking         right after the service call in which the fault struck (real faults: within N_MARK rounds) the
                      victim is marked: `cutoff`, or `aborted` for a server-side handshake in progress.  Also accepted,
                      because the statement is silent on it: the server closed and removed the connection
-                     (serviceReceivesAllIx does that for an OSError), or a client closed a connection whose handshake
-                     failed.                                                          key  not-cutoff:<role>:<call>:<fault name>
+                     (serviceReceivesAllIx does that for an OSError; a newer connection from the same address replaces it).
+                     A client has no such way out: its flags are all its owner sees, so after the service call that took
+                     the fault `cutoff` must be True (the next connect attempt may reset it).
+                                                                                       key  not-cutoff:<role>:<call>:<fault name>
   O3 sibling         the sibling's echoed stream equals what it sent - it keeps sending during and after the fault.
                                                                                        key  sibling-starved:<role>:<call>
 The fault name comes from the escaping exception itself (errno symbol, SSLEOFError, SSL_ERROR_EOF, else type name),
@@ -54,15 +56,16 @@ RULE = ("Enumerated, not sampled: role {Client, ClientTls, Remoter, RemoterTls} 
         "{9 errnos of the statement, +SSLEOFError, +SSLError(SSL_ERROR_EOF) on TLS} x call index 0..K (x victim accepted "
         "before/after the sibling on the server roles; the fault repeats on every later call of that kind - a dead connection "
         "keeps failing - and, thorough tier, also as a one-shot), one faulted connection per case; plus real peer faults {close, RST, half-close, "
-        "close_notify, handshake abort by close/RST after h handshake steps, close/RST before accept} x round 0..P of the exchange x "
+        "close_notify, handshake abort by close/RST after h handshake steps, close/RST before accept, RST followed 0/1/3 rounds later "
+        "by a new connection from the SAME (host, port) while the stale entry is still listed} x round 0..P of the exchange x "
         "{service(), split service calls}.  The seed only varies message sizes.  Non-trivial = the scripted fault actually fired "
         "on the victim socket, resp. the hio side of a real fault saw an error/EOF from its socket or raised; distinct = by "
         "(role, call, fault, index, order) resp. (role, fault kind, round, mode, order).")
 ASSUMPTIONS = [
     "an injected errno is raised by the victim socket's call without disturbing the kernel connection (the socket stays usable)",
     "real faults are whatever Linux loopback TCP and OpenSSL 3 make of close()/SO_LINGER 0/shutdown() at that round",
-    "closing-and-removing a server connection, and closing a client connection whose TLS handshake failed, are accepted as "
-    "'marked' because the statement does not say which flag a connection has that no longer exists",
+    "closing-and-removing (or replacing) a server connection is accepted as 'marked' because the statement does not say which "
+    "flag a connection has that no longer exists; a client must show cutoff after the service call that took the fault",
     "the sibling's raw peer and the echo loop (EchoServerDoer's three lines) are harness code and correct",
 ]
 TECHNIQUE = "fault injection at the socket shim, enumerated completely, + real peer faults; trace oracle over service rounds"
@@ -113,6 +116,13 @@ def enum_real(tier):
                 if is_server(role):
                     for fault in ("rst-before-accept", "close-before-accept"):
                         yield {"kind": "real", "role": role, "fault": fault, "point": -1, "mode": mode, "order": order}
+                    # peer dies with RST, then the SAME (host, port) connects again `delay` rounds later while the stale
+                    # entry is still in .ixes (a crashed host coming back): the server must replace it silently
+                    for fault in ("rst-reconnect",):
+                        for delay in (0, 1, 3):
+                            for point in range(0, P + 1, 2):
+                                yield {"kind": "real", "role": role, "fault": fault, "point": point, "mode": mode,
+                                       "order": order, "delay": delay}
             if is_tls(role):
                 for fault in ("hs-close", "hs-rst"):
                     for steps in range(0, 3):  # the raw peer performs this many do_handshake steps, then aborts
@@ -123,9 +133,11 @@ N_INJECT = {t: sum(1 for _ in enum_inject(t)) for t in ("quick", "thorough")}
 N_REAL = {t: sum(1 for _ in enum_real(t)) for t in ("quick", "thorough")}
 REQUIRE = {
     "quick": {"faults_fired": N_INJECT["quick"], "real_faults_applied": N_REAL["quick"], "real_faults_noticed": 150,
-              "sibling_exchanges_completed": 300, "rounds_serviced_after_fault": 3000},
+              "sibling_exchanges_completed": 300, "rounds_serviced_after_fault": 3000, "same_port_reconnects_completed": 80,
+              "same_port_reconnects_while_stale_entry_listed": 80, "client_handshake_faults_marked_cutoff": 40},
     "thorough": {"faults_fired": N_INJECT["thorough"], "real_faults_applied": N_REAL["thorough"], "real_faults_noticed": 300,
-                 "sibling_exchanges_completed": 1000, "rounds_serviced_after_fault": 12000},
+                 "sibling_exchanges_completed": 1000, "rounds_serviced_after_fault": 12000, "same_port_reconnects_completed": 150,
+                 "same_port_reconnects_while_stale_entry_listed": 150, "client_handshake_faults_marked_cutoff": 150},
 }
 EXHAUSTIVE = {
     "quick": f"role x call x fault x index 0..{KMAX['quick']} (x sibling order): {N_INJECT['quick']} injected-fault cases, each fault "
@@ -263,7 +275,8 @@ class Run:
         c = self.case
         if c["kind"] == "inject":
             return f"inject {action_name(c['fault'])} at {c['call']} call #{c['index']} of the victim ({c['order'] or 'no sibling'})"
-        return f"real {c['fault']} at round/step {c['point']} mode={c['mode']} ({c['order'] or 'no sibling'})"
+        return (f"real {c['fault']} at round/step {c['point']} mode={c['mode']} ({c['order'] or 'no sibling'})"
+                + (f" reconnect {c['delay']} rounds later" if "delay" in c else ""))
 
 
 def marked_server(server, rem, vaddr, handshake):
@@ -274,17 +287,19 @@ def marked_server(server, rem, vaddr, handshake):
         return "aborted"
     if rem.cutoff:
         return "cutoff"
-    gone = vaddr not in server.ixes and vaddr not in getattr(server, "cxes", {})
+    gone = server.ixes.get(vaddr) is not rem and getattr(server, "cxes", {}).get(vaddr) is not rem
     if gone and rem.cs is None:
-        return "removed"
+        return "removed"   # closed and dropped (error handler) or closed and replaced by a newer connection from that address
     return None
 
 
 def marked_client(client, handshake):
+    """The owner of a client has only the flags to go by (http's Client.service keys its cleanup on connector.cutoff):
+    a failed handshake that leaves cutoff False looks like a client that never got anywhere."""
     if client.cutoff:
         return "cutoff"
-    if handshake and (client.cs is None or getattr(client, "aborted", False)):
-        return "closed"
+    if handshake and getattr(client, "aborted", False):
+        return "aborted"
     return None
 
 
@@ -306,7 +321,7 @@ def close_notify(peer):
 def apply_real(peer, fault):
     if fault in ("close", "hs-close", "close-before-accept"):
         peer.close()
-    elif fault in ("rst", "hs-rst", "rst-before-accept"):
+    elif fault in ("rst", "hs-rst", "rst-before-accept", "rst-reconnect"):
         peer.close(rst=True)
     elif fault == "half":
         peer.half_close()
@@ -440,16 +455,15 @@ def run_client_case(case, ctx, cl):
             ctx.count("faults_fired")
             ctx.count(f"fired_{role}_{case['call']}")
             if ok:
-                same = client.cs is None or sh.script_of(client.cs) is sc   # not yet replaced by a new connection attempt
-                mark = marked_client(client, handshake_case) if same else ("closed" if handshake_case else None)
+                mark = marked_client(client, handshake_case)
                 judge_mark(run, mark, case["call"], action_name(case["fault"]))
         if not inject and applied_round is not None and mark is None and not run.escapes:
-            m = marked_client(client, handshake_case)
-            if m is None and handshake_case and client.cs is not None and sh.script_of(client.cs) is not sc:
-                m = "closed"   # the failed connection was closed and a new attempt is under way
+            m = marked_client(client, handshake_case)   # judged after every service call: the next connect attempt resets it
             if m:
                 mark = m
                 ctx.count("victim_marked_" + m)
+                if handshake_case:
+                    ctx.count("client_handshake_faults_marked_cutoff")
         start = struck_round if inject else applied_round
         if start is not None and r >= start + (N_AFTER if inject or mark or run.escapes else N_MARK):
             break
@@ -464,6 +478,8 @@ def judge_mark(run, mark, call, name):
     ctx = run.ctx
     if mark:
         ctx.count("victim_marked_" + mark)
+        if call == "handshake" and run.role == "ClientTls":
+            ctx.count("client_handshake_faults_marked_cutoff")
     else:
         ctx.violation(f"not-cutoff:{run.role}:{call}:{name}",
                       f"round {run.round}: the fault was taken without an exception but the victim connection is neither cut off "
@@ -478,14 +494,24 @@ def run_server_case(case, ctx, cl):
     run = Run(case, ctx)
     server = cl.add(tk.open_server(tcp, _state["ports"], tls=tls, tymth=tyming.Tymist().tymen()))
     sc = victim_script(case)
+    sc2 = sh.Script(label="reconnected", nodelay=True)
     vaddr_box = []
-    sh.expect_accept(server.ss, lambda addr: sc if vaddr_box and addr == vaddr_box[0] else None)
+    accepted_from_victim = []
+
+    def script_for(addr):
+        if vaddr_box and addr == vaddr_box[0]:
+            accepted_from_victim.append(addr)
+            return sc if len(accepted_from_victim) == 1 else sc2   # the same (host, port) may come back after a reset
+        return None
+    sh.expect_accept(server.ss, script_for)
     port = server.ha[1]
     fault = case.get("fault")
     before_accept = not inject and fault.endswith("before-accept")
+    reconnect = not inject and fault.endswith("-reconnect")
+    sport = tk.quiet_port(_state["ports"]) if reconnect else None   # fixed source port, so the address can be reused
 
     def connect_victim():
-        v = cl.add(tk.connect_peer(port, tls=tls))
+        v = cl.add(tk.connect_peer(port, tls=tls, sport=sport))
         vaddr_box.append(v.addr)
         if before_accept:
             apply_real(v, fault)
@@ -508,9 +534,15 @@ def run_server_case(case, ctx, cl):
     npush = 0
     limit = (case["index"] if inject else max(case["point"], 0)) + 200
 
+    extra = []        # talkers that joined later (the reconnected victim)
+    v2peer = None
+    v2_round = None
+
     def push():
         nonlocal npush
         ix = server.ixes.get(vaddr)
+        if ix is not find_remoter(vaddr):
+            return    # only the original victim connection gets server-initiated data, not its successor
         if ix is not None and not ix.cutoff and ix.cs is not None:
             ix.tx(b"P%03d\n" % npush)
             npush += 1
@@ -527,8 +559,12 @@ def run_server_case(case, ctx, cl):
         if talk:
             sibling.say()
             victim.say()
+            for t in extra:
+                t.say()
         sibling.io()
         victim.io()
+        for t in extra:
+            t.io()
         if split:
             ok = run.guarded(server.serviceConnects, "connect")
             push()
@@ -543,6 +579,8 @@ def run_server_case(case, ctx, cl):
         echo()
         sibling.io()
         victim.io()
+        for t in extra:
+            t.io()
         return ok, len(sc.fired) > before
 
     for r in range(limit):
@@ -562,6 +600,15 @@ def run_server_case(case, ctx, cl):
                 hold = inject and case["call"] == "handshake" and sc.calls["handshake"] <= case["index"]
                 if not hold:
                     vpeer.step_handshake()
+        if reconnect and applied_round is not None and v2peer is None and r >= applied_round + case["delay"]:
+            v2peer = cl.add(tk.connect_peer(port, tls=tls, sport=sport))   # same (host, port) as the reset connection
+            v2_round = r
+            extra.append(Talker(v2peer, b"W", rng))
+            ctx.count("same_port_reconnects")
+            if vaddr in server.ixes:
+                ctx.count("same_port_reconnects_while_stale_entry_listed")
+        if v2peer is not None:
+            v2peer.step_handshake()
         ok, fired_now = one_round(r)
         if struck_round is not None or applied_round is not None:
             ctx.count("rounds_serviced_after_fault")
@@ -578,6 +625,8 @@ def run_server_case(case, ctx, cl):
             if mark:
                 ctx.count("victim_marked_" + mark)
         start = struck_round if inject else applied_round
+        if reconnect and (v2_round is None or r < v2_round + N_AFTER):
+            start = None   # keep going until the successor connection has been serviced for a while
         if start is not None and r >= max(start, 0) + (N_AFTER if inject or mark or run.escapes or rem is None else N_MARK):
             break
         if vaddr not in server.ixes and struck_round is None and applied_round is None:
@@ -589,19 +638,36 @@ def run_server_case(case, ctx, cl):
     last = None
     idle = 0
     r0 = run.round + 1
+    def complete(t):
+        return t.peer.ready and t.n > 0 and bytes(t.peer.inb) == bytes(t.sent) and not t.peer.out
+
     for r in range(r0, r0 + SIB_ROUNDS):
-        if speer.ready and bytes(speer.inb) == bytes(sibling.sent) and not speer.out:
+        if complete(sibling) and all(complete(t) or t.n == 0 for t in extra) and all(t.peer.ready for t in extra):
             break
         speer.step_handshake()
-        one_round(r, talk=False)
-        sig = (len(speer.inb), len(speer.out), speer.ready)
+        if v2peer is not None:
+            v2peer.step_handshake()
+        one_round(r, talk=any(t.n == 0 for t in extra))
+        sig = (len(speer.inb), len(speer.out), speer.ready, [(len(t.peer.inb), t.peer.ready) for t in extra])
         if sig == last:
             idle += 1
-            tk.wait_any([speer.sock], 10)
+            tk.wait_any([speer.sock] + [t.peer.sock for t in extra], 10)
         else:
             idle = 0
         last = sig
-    sib_ok = speer.ready and sibling.n > 0 and bytes(speer.inb) == bytes(sibling.sent)
+    sib_ok = complete(sibling) or (speer.ready and sibling.n > 0 and bytes(speer.inb) == bytes(sibling.sent))
+    if reconnect:
+        w = extra[0] if extra else None
+        if w is not None and complete(w):
+            ctx.count("same_port_reconnects_completed")
+            ctx.count("reconnected_messages_echoed", w.n)
+        else:
+            calls = sorted({e[1] for e in run.escapes}) or ["none"]
+            ctx.violation(f"reconnect-starved:{role}:{'+'.join(calls)}",
+                          f"the peer came back from the same (host, port) {vaddr} after its reset, "
+                          f"{'sent %d B and got %d B echoed' % (len(w.sent), len(w.peer.inb)) if w else 'but was never connected'} "
+                          f"(handshake done={w.peer.ready if w else None}, peer error {w.peer.error if w else None!r}); "
+                          f"escapes so far: {run.escapes[:4]}; case {run.describe()}")
     finish(run, ctx, case, sc, struck_round, applied_round, mark, find_remoter(vaddr) is not None,
            (sib_ok, sibling, speer, saddr, server))
     return server
@@ -646,7 +712,7 @@ def finish(run, ctx, case, sc, struck_round, applied_round, mark, victim_existed
         if inject:
             ctx.nontrivial(["inject", role, case["call"], case["fault"], case["index"], case["order"], case.get("sticky", True)])
         else:
-            ctx.nontrivial(["real", role, case["fault"], case["point"], case["mode"], case["order"]])
+            ctx.nontrivial(["real", role, case["fault"], case["point"], case["mode"], case["order"], case.get("delay")])
     if run.escapes:
         ctx.count("cases_with_escape")
     ctx.sample({"case": case, "struck_round": struck_round, "applied_round": applied_round, "victim_marked": mark,
